@@ -31,6 +31,12 @@ def main():
             sys.exit("cannot create scratch worktree: " + r.stderr)
     if not clean():
         sys.exit("refusing: scratch worktree is not clean")
+    # a kept worktree follows /repo's HEAD (the fixes committed since it was created)
+    head = sh("git", "-C", "/repo", "rev-parse", "HEAD").stdout.strip()
+    if sh("git", "-C", REPO, "rev-parse", "HEAD").stdout.strip() != head:
+        r = sh("git", "-C", REPO, "checkout", "--detach", head)
+        if r.returncode != 0:
+            sys.exit("cannot move scratch worktree to /repo HEAD: " + r.stderr)
     os.makedirs(SCRATCH, exist_ok=True)
     # the harness sources are snapshotted so that edits made while the matrix runs cannot break its builds
     snap = os.path.join(SCRATCH, "harness")
@@ -49,7 +55,7 @@ def main():
             matrix[label] = {"property": prop, "error": "patch does not apply: " + r.stderr[:300]}
             print(label, "PATCH DOES NOT APPLY", flush=True)
             continue
-        row = {"property": prop, "checks": {}}
+        row = {"property": prop, "repo_head": head[:7], "checks": {}}
         try:
             for pid in [prop] + EXTRA.get(label, []):
                 t0 = time.time()
